@@ -13,6 +13,7 @@ block is recorded ahead of what was delivered (`partial_poll_records_undelivered
 -/
 import TeosVerif.Model.Crash
 import TeosVerif.Lemmas.Tower
+import TeosVerif.Lemmas.TowerInv
 
 namespace Teos.C03
 open Teos
@@ -307,5 +308,26 @@ example :
     s'.db.log.length = s.db.log.length + 2 ∧
     ((crashDb s.db s'.db 1).users 7).map (·.slots) = some 2 ∧ (crashDb s.db s'.db 1).appts (4, 7) = none := by
   refine ⟨rfl, rfl, rfl⟩
+
+
+/-! ### history level: what every restart finds -/
+
+/-- **no history leaves dangling records**: whatever the tower did before it died — any history of
+operations from a consistent database — the file it leaves has every appointment attached to an
+existing user and every tracker attached to an existing appointment with a storable status, so the
+next bootstrap starts from a consistent database again (and `tinv_boot` applies to it). Together
+with `durable_inv_every_prefix` (a crash keeps a prefix of the committed writes, each of which keeps
+the integrity) this covers a death at any instant. -/
+theorem no_dangling_records_ever (cfg : Cfg) (db : Db) (height : Nat) (blocks : List (Nat × List TxId))
+    (hdb : DbInv db) (hnd : (blocks.map (·.1)).Nodup) (hist : List (Node × Op))
+    (hv : HistoryValid cfg (boot db height blocks) hist) :
+    DbInv (runHistory cfg (boot db height blocks) hist).db :=
+  (tinv_history cfg hist _ (tinv_boot db height blocks hdb hnd) hv).db
+
+/-- restarting on that file gives a state satisfying the invariant again, whatever the chain -/
+theorem restart_is_consistent (cfg : Cfg) (s : Tower) (h : TInv s) (height : Nat)
+    (blocks : List (Nat × List TxId)) (hnd : (blocks.map (·.1)).Nodup) :
+    TInv (boot s.db height blocks) :=
+  tinv_boot s.db height blocks h.db hnd
 
 end Teos.C03
